@@ -1,21 +1,34 @@
 #!/bin/bash
-# confirm_seed.sh <worktree> <outdir k> <crate: simple-dns|simple-mdns> : confirms a seeded change in a scratch worktree:
-#   demo passes on the clean tree; with the patch: workspace compiles, 130 tests pass, demo fails.
+# confirm_seed.sh <worktree> <outdir> [crate]: confirms a seeded change in a scratch worktree:
+#   demo passes on the clean tree; with the patch: workspace compiles, the 130 tests pass, the demo fails.
+# The demo is demo.rs (an integration test) or demo.diff (a patch adding a #[cfg(test)] test named seed_demo_*).
 set -u
-WT=$1; OUT=$2; CRATE=${3:-simple-dns}
+WT=$1; OUT=$2
+CRATE=${3:-$(python3 -c "import json,sys; print(json.load(open('$OUT/meta.json')).get('crate','simple-dns'))" 2>/dev/null || echo simple-dns)}
+case "$CRATE" in simple-mdns|simple-dns) ;; *) CRATE=simple-dns ;; esac
 cd "$WT" || exit 2
 git checkout -q -- . ; git clean -qfd -e out
 NAME=seed_demo_$$
-cp "$OUT/demo.rs" "$CRATE/tests/$NAME.rs"
 FEAT=""; [ "$CRATE" = simple-mdns ] && FEAT="--features sync"
-timeout 600 cargo test -q -p $CRATE $FEAT --offline --test $NAME >/tmp/confirm_clean.log 2>&1; CLEAN=$?
+run_demo() {
+  if [ -f "$OUT/demo.diff" ]; then
+    git apply "$OUT/demo.diff" || return 99
+    timeout 900 cargo test -q -p $CRATE $FEAT --offline seed_demo_ > $1 2>&1; r=$?
+    grep -q "running 0 tests" $1 && ! grep -q "test result: .* [1-9][0-9]* passed\|FAILED\|failed" $1 && r=98
+    git apply -R "$OUT/demo.diff"
+    return $r
+  else
+    cp "$OUT/demo.rs" "$CRATE/tests/$NAME.rs"
+    timeout 900 cargo test -q -p $CRATE $FEAT --offline --test $NAME > $1 2>&1; r=$?
+    rm -f "$CRATE/tests/$NAME.rs"
+    return $r
+  fi
+}
+run_demo /tmp/confirm_clean.log; CLEAN=$?
 git apply "$OUT/patch.diff" || { echo "PATCH-DOES-NOT-APPLY"; exit 3; }
-mv "$CRATE/tests/$NAME.rs" /tmp/$NAME.rs
 timeout 900 cargo nextest run --workspace --no-fail-fast --offline >/tmp/confirm_suite.log 2>&1; SUITE=$?
 PASSED=$(grep -o "[0-9]* passed" /tmp/confirm_suite.log | tail -1)
-mv /tmp/$NAME.rs "$CRATE/tests/$NAME.rs"
-timeout 600 cargo test -q -p $CRATE $FEAT --offline --test $NAME >/tmp/confirm_mut.log 2>&1; MUT=$?
-rm -f "$CRATE/tests/$NAME.rs"
+run_demo /tmp/confirm_mut.log; MUT=$?
 git checkout -q -- . ; git clean -qfd -e out
-echo "demo_on_clean_exit=$CLEAN suite_exit=$SUITE ($PASSED) demo_on_mutant_exit=$MUT"
-[ $CLEAN -eq 0 ] && [ $SUITE -eq 0 ] && [ $MUT -ne 0 ]
+echo "crate=$CRATE demo_on_clean_exit=$CLEAN suite_exit=$SUITE ($PASSED) demo_on_mutant_exit=$MUT"
+[ $CLEAN -eq 0 ] && [ $SUITE -eq 0 ] && [ $MUT -ne 0 ] && [ $MUT -lt 98 ]
